@@ -102,7 +102,7 @@ def gen(r, tier, i):
 def cell_shadow(key, n, deriver, tags=None):
     t = tags or key
     c = {'led': ('P', t + '.led'), 'f1': ('P', t + '.f1'), 'f2': ('P', t + '.f2'), 'f0': ('P', t + '.f0'),
-         'st': {'log': [], 'n': n, 'twice': 0, 'quad': 0, 'lag': 0, 'g': 0}}
+         'st': {'log': [], 'n': n, 'twice': 0, 'quad': 0, 'lag': 0, 'g': 0}, 'ves': {}}
     if deriver:
         c['drv'] = ('P', t + '.drv')
         c['drv2'] = ('P', t + '.drv2')
@@ -130,7 +130,9 @@ def run(spec):
             return {'other': {'z': {'_default': 7}, 'w': {'_default': [1, 2], '_updater': 'set'}},
                     'L': {'*': {'_default': 5, '_updater': 'set'}},
                     # a variable that only this glob sub-schema declares for the cells of A and B
-                    'GA': {'*': {'st': {'g': {'_default': 0}}}}, 'GB': {'*': {'st': {'g': {'_default': 0}}}}}
+                    # ... and a second glob store inside every cell (its children come with the cells' states)
+                    'GA': {'*': {'st': {'g': {'_default': 0}}, 'ves': {'*': {'v': {'_default': 5}, 'w': {'_default': 6}}}}},
+                    'GB': {'*': {'st': {'g': {'_default': 0}}, 'ves': {'*': {'v': {'_default': 5}, 'w': {'_default': 6}}}}}}
 
         def next_update(self, timestep, states):
             return {}
@@ -233,7 +235,7 @@ def run(spec):
                 if present:
                     valid = False
                     break
-                u.setdefault('_add', []).append({'key': key, 'state': {'st': {'n': op[3]}}})
+                u.setdefault('_add', []).append({'key': key, 'state': {'st': {'n': op[3]}, 'ves': {'k': {'v': 1}}}})
                 adds.append(op)
             elif kind == 'add_dup':
                 if present:
@@ -267,7 +269,7 @@ def run(spec):
                 c = structw.Cell(dict(cfg, agent_id=key, deriver=der if op[4] else None)).generate()
                 u.setdefault('_generate', []).append({'key': key, 'processes': c['processes'], 'steps': c['steps'],
                                                       'flow': c['flow'], 'topology': c['topology'],
-                                                      'initial_state': {'st': {'n': op[3], 'g': 4}}})
+                                                      'initial_state': {'st': {'n': op[3], 'g': 4}, 'ves': {'k': {'v': 2}}}})
                 gens.append(op)
             elif kind == 'divide':
                 if not present or '_divide' in u:
@@ -304,7 +306,7 @@ def run(spec):
         # ---- advance the shadow in the documented order: additions and moves, generates, divides, inner keys, deletions
         if not expect_raise:
             for op in adds:
-                new_shadow[op[1]][op[2]] = {'st': {'n': op[3], 'g': 0}}
+                new_shadow[op[1]][op[2]] = {'st': {'n': op[3], 'g': 0}, 'ves': {'k': {'v': 1, 'w': 6}}}
                 touched.add((op[1], op[2]))
             for op in moves:
                 sub = new_shadow[op[1]].pop(op[2])
@@ -317,6 +319,7 @@ def run(spec):
             for op in gens:
                 new_shadow[op[1]][op[2]] = cell_shadow(op[2], op[3], der if op[4] else None)
                 new_shadow[op[1]][op[2]]['st']['g'] = 4       # from the initial state, not the sub-schema's default
+                new_shadow[op[1]][op[2]]['ves'] = {'k': {'v': 2, 'w': 6}}
                 touched.add((op[1], op[2]))
             for op in divs:
                 m = new_shadow[op[1]].pop(op[2])
@@ -327,6 +330,7 @@ def run(spec):
                     if op[3] == 'explicit':
                         cell = cell_shadow(d, st['n'], der)
                         cell['st'].update(st)
+                        cell['ves'] = copy.deepcopy(m.get('ves', {}))
                     else:
                         cell = {k: v for k, v in copy.deepcopy(m).items() if k != 'st'}
                         # variables declared by the (copied) processes exist with their defaults
@@ -384,7 +388,7 @@ def run(spec):
             V.check('add_existing_rejected', raised is not None, lambda: ('an _add list naming one key twice was accepted', ops))
             op = ops[0]
             with_first = copy.deepcopy(shadow)
-            with_first[op[1]][op[2]] = {'st': {'n': op[3], 'g': 0}}
+            with_first[op[1]][op[2]] = {'st': {'n': op[3], 'g': 0}, 'ves': {}}
             got = real_tree()
             V.check('add_existing_rejected', got == shadow or got == with_first,
                     lambda: ('after the rejected duplicate _add the hierarchy is neither unchanged nor holds the first entry', _ddiff(with_first, got)))
